@@ -18,6 +18,7 @@ limitations under the License.
 package gogen
 
 import (
+	"fmt"
 	"go/ast"
 	"go/constant"
 	"go/token"
@@ -903,9 +904,12 @@ func (p *CodeBuilder) instantiate(nidx int, args []*internal.Elem, src ...ast.No
 
 func instanceInferFunc(pkg *Package, arg *internal.Elem, tsig *inferFuncType, sig *types.Signature) error {
 	args := paramsToArgs(sig)
-	targs, _, err := inferFunc(tsig.pkg, tsig.fn, tsig.typ, tsig.targs, args, 0)
+	targs, inst, err := inferFunc(tsig.pkg, tsig.fn, tsig.typ, tsig.targs, args, 0)
 	if err != nil {
 		return err
+	}
+	if !types.Identical(inst, sig) { // inferred from the parameters only: the results must agree too
+		return fmt.Errorf("type %v of %s does not match %v", tsig.typ, exprString(arg.Val), sig)
 	}
 	arg.Type = sig
 	index := make([]ast.Expr, len(targs))
@@ -928,9 +932,12 @@ func instanceInferFunc(pkg *Package, arg *internal.Elem, tsig *inferFuncType, si
 
 func instanceFunc(pkg *Package, arg *internal.Elem, tsig *types.Signature, sig *types.Signature) error {
 	args := paramsToArgs(sig)
-	targs, _, err := inferFunc(pkg, &internal.Elem{Val: arg.Val}, tsig, nil, args, 0)
+	targs, inst, err := inferFunc(pkg, &internal.Elem{Val: arg.Val}, tsig, nil, args, 0)
 	if err != nil {
 		return err
+	}
+	if !types.Identical(inst, sig) { // inferred from the parameters only: the results must agree too
+		return fmt.Errorf("type %v of %s does not match %v", tsig, exprString(arg.Val), sig)
 	}
 	arg.Type = sig
 	if len(targs) == 1 {
